@@ -75,3 +75,18 @@ pub proof fn lemma_blks_span_step(bs: Seq<PreflateTokenBlock>, k: int)
         lemma_blks_span_nonneg(bs.subrange(0, k + 1));
     }
 }
+
+pub proof fn lemma_toks_span_step(ts: Seq<PreflateToken>, k: int)
+    requires 0 <= k < ts.len(),
+    ensures toks_span(ts.subrange(0, k + 1)) == toks_span(ts.subrange(0, k)) + tok_span(ts[k]),
+        toks_span(ts.subrange(0, k + 1)) <= toks_span(ts), toks_span(ts.subrange(0, k)) >= 0,
+    decreases ts.len() - k
+{
+    assert(ts.subrange(0, k + 1).drop_last() =~= ts.subrange(0, k));
+    assert(ts.subrange(0, k + 1).last() == ts[k]);
+    lemma_toks_span_nonneg(ts.subrange(0, k));
+    if k + 1 == ts.len() { assert(ts.subrange(0, k + 1) =~= ts); } else {
+        lemma_toks_span_step(ts, k + 1);
+        lemma_toks_span_nonneg(seq![ts[k + 1]]);
+    }
+}
